@@ -212,6 +212,13 @@ impl Method for UpperReversalSignal {
 		};
 
 		self.index = self.index.saturating_add(1);
+
+		// keep positions bounded: rebase them before the counter reaches the capacity of `PeriodType`
+		if self.index == PeriodType::MAX {
+			self.index -= first_index;
+			self.max_index -= first_index;
+		}
+
 		s
 	}
 }
@@ -346,6 +353,13 @@ impl Method for LowerReversalSignal {
 		};
 
 		self.index = self.index.saturating_add(1);
+
+		// keep positions bounded: rebase them before the counter reaches the capacity of `PeriodType`
+		if self.index == PeriodType::MAX {
+			self.index -= first_index;
+			self.min_index -= first_index;
+		}
+
 		s
 	}
 }
